@@ -1,15 +1,17 @@
 #!/bin/bash
-# lib/seedbatch.sh <ID>...  : confirm (4 in parallel) and then check (serial) all mutants of the given properties under /tmp/mut/<ID>.out/m*
+# lib/seedbatch.sh <NAME>...  : NAME = C04 (round 1) or C04r2 (round 2); confirm (4 in parallel) and then check (serial,
+# against a scratch worktree, /repo untouched) all mutants under /tmp/mut/<NAME>.out/m*
 cd "$(dirname "$0")/.."
 dirs=()
-for id in "$@"; do for d in /tmp/mut/$id.out/m*; do [ -f "$d/patch.diff" ] && dirs+=("$d"); done; done
-printf '%s\n' "${dirs[@]}" | xargs -P 4 -I{} sh -c 'python3 lib/seedtest.py {} --confirm-only > {}/confirm.log 2>&1; tail -1 {}/confirm.log | sed "s|^|{} |"'
+for id in "$@"; do for d in /tmp/mut/$id.out/m*; do [ -f "$d/patch.diff" ] && [ -f "$d/meta.json" ] && dirs+=("$d"); done; done
+printf '%s\n' "${dirs[@]}" | xargs -P 4 -I{} sh -c '[ -f {}/confirm.json ] || python3 lib/seedtest.py {} --confirm-only > {}/confirm.log 2>&1'
 for d in "${dirs[@]}"; do
-  id=$(basename $(dirname $d) .out); k=$(basename $d)
+  name=$(basename $(dirname $d) .out); k=$(basename $d)
+  keep=$(echo $name | sed 's/r2$//')-$(echo $name | grep -q r2 && echo r2)$k
   if grep -q '"ok": true' $d/confirm.json 2>/dev/null; then
-    python3 lib/seedtest.py $d --no-confirm --keep $id-$k > $d/check.log 2>&1
-    echo "$id-$k $(tail -1 $d/check.log) :: $(grep -m1 '^  ' $d/check.log | cut -c1-160)"
+    python3 lib/seedtest.py $d --no-confirm --scratch --keep $keep > $d/check.log 2>&1
+    echo "$keep $(tail -1 $d/check.log) :: $(grep -m1 '^  ' $d/check.log | cut -c1-170)"
   else
-    echo "$id-$k NOT-CONFIRMED"
+    echo "$keep NOT-CONFIRMED :: $(grep -o '"demo_with_change": "[^"]*"\|"existing_tests": "[^"]\{0,80\}\|"error": "[^"]\{0,120\}' $d/confirm.json | tr '\n' ' ')"
   fi
 done
